@@ -89,7 +89,8 @@ def solve_lp(c, A, b, minimize, eps, max_iter, num=F, fr=None):
         # commit 96ecc58: row equilibration (every constraint row and its rhs divided by the row's largest |coefficient|)
         scale = max((abs(num(v)) for v in A[i]), default=num(0)) or num(1)
         mat.append([num(v) / scale for v in A[i]] + [num(1 if k == i else 0) for k in range(m)] + [num(b[i]) / scale])
-    mat.append([num(v) for v in w] + [num(0)] * (m + 1))
+    wscale = max((abs(num(v)) for v in w), default=num(0)) or num(1)      # commit 39737f0: the objective row is scaled too
+    mat.append([num(v) / wscale for v in w] + [num(0)] * (m + 1))
     basis = list(range(n, n + m))
     iters = 0
     if any(mat[i][-1] < -eps for i in range(m)):
@@ -138,8 +139,7 @@ def solve_lp(c, A, b, minimize, eps, max_iter, num=F, fr=None):
     if fr is not None:
         # a reduced cost that is 0 (or within round-off of -eps) in exact arithmetic is noise of size ~ulp(max|c|) in doubles: at
         # large cost magnitudes that noise exceeds eps and the float simplex may pivot on to another optimal vertex
-        cmax = max([abs(v) for v in w] + [0])
-        margin = F(1, 2**40) * cmax
+        margin = F(1, 2**40)            # the objective row is scaled to max |w| = 1 (39737f0)
 
         def note(rc):
             if abs(rc + eps) < margin:
